@@ -20,3 +20,12 @@ Definition tree_c01B (files : list rfile) (cases : list (string * value * bool))
      failing (fun r => negb (fst (fst r)) || (snd (fst r) && snd r)) rs 0,
      failing (fun r => Bool.eqb (snd (fst r)) (snd r)) rs 0)
   end.
+
+(* per top-level class: does the termination theorem (C03_terminates_core) apply, entered non-chunked / chunked *)
+From EO Require Import Model.Progress Model.WfEnv.
+Definition tree_progress (files : list rfile) : list (string * bool * bool) :=
+  match elab files with
+  | Err _ => []
+  | Ok p => map (fun n => (n, progress_okT (pk_env p) n false, progress_okT (pk_env p) n true))
+                (List.filter (fun n => match env_find (pk_env p) n with Some _ => true | None => false end) (top_classes p))
+  end.
